@@ -127,11 +127,11 @@ func (m *Machine) binop(op token.Token, x, y value, xt types.Type, in ssa.Instru
 		return m.strBinop(op, x, y, in)
 	}
 	switch x.(type) {
-	case float64, *FRat, *FTab:
+	case float64, *FRat, *FTab, FUnknown:
 		return m.floatBinop(op, x, y, in)
 	}
 	switch y.(type) {
-	case *FRat, *FTab:
+	case *FRat, *FTab, FUnknown:
 		return m.floatBinop(op, x, y, in)
 	}
 	// bools
